@@ -1,0 +1,69 @@
+package rockredis
+
+import "github.com/youzan/ZanRedisDB/common"
+
+// A write command reads the existing members from the committed data, which does not include
+// what the running command has already put into the write batch. A member that appears more than
+// once in the arguments of one command would therefore be seen as new (or as existing) each time
+// and be counted twice in the collection size. The helpers below keep only the last occurrence
+// of each member, which is also the one whose value/score must win.
+
+func dedupMembers(args [][]byte) [][]byte {
+	if len(args) < 2 {
+		return args
+	}
+	last := make(map[string]int, len(args))
+	for i := 0; i < len(args); i++ {
+		last[string(args[i])] = i
+	}
+	if len(last) == len(args) {
+		return args
+	}
+	out := make([][]byte, 0, len(last))
+	for i := 0; i < len(args); i++ {
+		if last[string(args[i])] == i {
+			out = append(out, args[i])
+		}
+	}
+	return out
+}
+
+func dedupKVRecords(args []common.KVRecord) []common.KVRecord {
+	if len(args) < 2 {
+		return args
+	}
+	last := make(map[string]int, len(args))
+	for i := 0; i < len(args); i++ {
+		last[string(args[i].Key)] = i
+	}
+	if len(last) == len(args) {
+		return args
+	}
+	out := make([]common.KVRecord, 0, len(last))
+	for i := 0; i < len(args); i++ {
+		if last[string(args[i].Key)] == i {
+			out = append(out, args[i])
+		}
+	}
+	return out
+}
+
+func dedupScorePairs(args []common.ScorePair) []common.ScorePair {
+	if len(args) < 2 {
+		return args
+	}
+	last := make(map[string]int, len(args))
+	for i := 0; i < len(args); i++ {
+		last[string(args[i].Member)] = i
+	}
+	if len(last) == len(args) {
+		return args
+	}
+	out := make([]common.ScorePair, 0, len(last))
+	for i := 0; i < len(args); i++ {
+		if last[string(args[i].Member)] == i {
+			out = append(out, args[i])
+		}
+	}
+	return out
+}
